@@ -96,8 +96,20 @@ impl PropertyValue {
 //@| if sv_dec(bytes@) is Some {
 //@|     assert(abs(PropertyValue::List(items))->List_0 =~= abs_seq(items@));
 //@| }
-//@loop 2
-//@| invariant 5 <= pos <= bytes@.len(), bytes@.len() <= 0x7fff_ffff_ffff_ffff, bytes@[0] == 8,
+//@proof before 1 "let mut map = BTreeMap::new();"
+//@| lemma_dec_consumes(bytes@);
+//@loop 2 iter it2
+//@| invariant 5 <= pos <= bytes@.len(), bytes@.len() >= 5, bytes@.len() <= 0x7fff_ffff_ffff_ffff, bytes@[0] == 8, count == from_le32(bytes@.subrange(1, 5)) as usize,
+//@|   it2.index@ <= count,
+//@|   sv_dec(bytes@) is Some ==> sv_dec_entries(bytes@, 5, count as nat) is Some,
+//@|   sv_dec_entries(bytes@, 5, count as nat) is Some ==> (
+//@|       sv_dec_entries(bytes@, 5, it2.index@ as nat) is Some
+//@|       && sv_dec_entries(bytes@, 5, it2.index@ as nat)->Some_0 == pos),
+//@proof before 1 "if bytes.len() < pos + 4 {"
+//@| let k = it2.index@ as nat;
+//@| if sv_dec_entries(bytes@, 5, count as nat) is Some {
+//@|     lemma_dec_entries_prefix(bytes@, 5, count as nat, (k + 1) as nat);
+//@| }
 //@end
 
 } // impl
